@@ -162,5 +162,23 @@ def getitem (shape : List Nat) (ninf : Nat) (item : List Ax) : Except Err Answer
     let r ← select (trialDims shape inf) item
     pure ⟨r.shape, r.sources, positions r.sources⟩
 
+/-! ### views: an item on the finite dimensions only -/
+
+def prodL : List Nat → Nat
+  | [] => 1
+  | x :: xs => x * prodL xs
+
+/-- the item a view hands to its parent for the orders `o`: each order as a slice of length one (an integer next to the lists of the item
+would count as an advanced index too) -/
+def viewItem (item : List Ax) (o : List Nat) : List Ax :=
+  item ++ o.map fun (i : Nat) => Ax.slice (some (i : Int)) (some ((i : Int) + 1)) 1
+
+/-- `series[item][… , o]`: the shape of the view `series[item]` (`np.empty(shape)[item].shape`) and, for the orders `o`, the parent element
+behind each of its entries in row-major order (`self[item + slices].filled(zero).reshape(view_shape)`), with what the parent evaluates -/
+def view (shape : List Nat) (item : List Ax) (o : List Nat) : Except Err Answer := do
+  let v ← select shape item
+  let a ← getitem shape o.length (viewItem item o)
+  if a.sources.length = prodL v.shape then pure ⟨v.shape, a.sources, a.evaluated⟩ else .error .other      -- `reshape` raises `ValueError`
+
 end Index
 end Pyma
